@@ -11,7 +11,7 @@ from vx.extract import Lost, code_mask, match_close
 
 NAME = "rope_core"
 PROPS = ["C05", "C16", "C17", "C19"]
-RLIMIT = 120
+RLIMIT = 800
 
 IMPL = "impl<'a> Rope<'a> {"
 
@@ -189,6 +189,170 @@ def build_get_byte(u):
     u.contracted += [("Rope::get_byte", "src/rope.rs")]
 
 
+def g2_universal_range(it, fn):
+    """G2: instantiate the generic range parameter `R: RangeBounds<usize>` at `(Bound<usize>, Bound<usize>)`.  The body
+    uses `range` only through `start_bound()` / `end_bound()`, and every pair of bounds any implementor can return is
+    returned by some value of this type, so the instance is the most general one (std implements RangeBounds for it;
+    vstd specifies that impl).  Only the signature changes."""
+    it.rule("G2", r"fn " + fn + r"<R>\(", "fn " + fn + "(", fn=None)
+    it.rule("G2", r"range: R,?", "range: (Bound<usize>, Bound<usize>),", fn=fn)
+    it.rule("G2", r"\n\s*where\s*\n\s*R: RangeBounds<usize>,", "", fn=fn)
+
+
+def r2t_try_for_each(it, fn):
+    """R2t: `(A..B).try_for_each(|i| { BODY; Ok(()) })?;` -> `for i in A..B { BODY }`: a `return Err(e)` inside the closure
+    makes try_for_each stop and `?` return that Err from the function, which is what `return Err(e)` does in the loop
+    (same error type, `From` is the identity); reaching `Ok(())` continues with the next index."""
+    s = it.buf.text
+    mask = code_mask(s)
+    lo, _, hi = it.fn_span(fn)
+    ms = [m for m in re.finditer(r"\(([^()\n]+?)\.\.([^()\n]+?)\)\.try_for_each\(\|(\w+)\|\s*\{", s) if lo <= m.start() < hi and mask[m.start()]]
+    if len(ms) != 1:
+        raise Lost(f"rule R2t: expected 1 try_for_each in {fn}, found {len(ms)}")
+    m = ms[0]
+    bo = m.end() - 1
+    bc = match_close(s, mask, bo)
+    body = s[bo + 1:bc].rstrip()
+    if not body.endswith("Ok(())"):
+        raise Lost("rule R2t: closure does not end in Ok(())")
+    body = body[:-len("Ok(())")].rstrip()
+    tail = re.match(r"\)\?;", s[bc + 1:])
+    if not tail:
+        raise Lost("rule R2t: try_for_each result is not propagated with `?`")
+    new = f"for {m.group(3)} in {m.group(1)}..{m.group(2)} {{{body}\n        }}"
+    l, _ = it.buf.pos(m.start())
+    it.rules_applied.append({"rule": "R2t", "file": it.relpath, "line": it._repo_line(l), "from": m.group(0), "to": f"for {m.group(3)} in {m.group(1)}..{m.group(2)} {{ .. }}"})
+    it.buf.replace_span(m.start(), bc + 1 + tail.end(), new, ("rule", "R2t"))
+
+
+def c5_len_closure(it, fn):
+    """C5: `.unwrap_or_else(|| self.len())` -> the same closure with its type and the contract of `Rope::len`
+    (`requires self.wf() ensures r == self.bytes().len()`; Verus checks the body against it)"""
+    return it.rule("C5", r"\.unwrap_or_else\(\|\|\s*self\.len\(\)\)", ".unwrap_or_else(|| -> (r: usize) requires self.wf() ensures r == self.bytes().len() { self.len() })", fn=fn)
+
+
+GLUE_FROM = r"""
+// vstd specifies `From::from` through FromSpecImpl: the conversion from &str is the single-piece rope
+impl<'a> vstd::std_specs::convert::FromSpecImpl<&'a str> for Rope<'a> {
+  closed spec fn obeys_from_spec() -> bool { true }
+  closed spec fn from_spec(v: &'a str) -> Self { Rope { repr: Repr::Light(v) } }
+}
+"""
+
+POS = "(if i == sc { start_range as int } else if i <= ec { d[i as int].1 as int } else { end_range as int })"
+
+SLICE_SPEC = r"""
+/// the byte range a pair of bounds denotes (std's meaning of Included / Excluded / Unbounded; saturating at usize::MAX as
+/// the two helpers do)
+pub open spec fn lo_of(b: Bound<usize>) -> int { match b { Bound::Included(s) => s as int, Bound::Excluded(s) => if s == usize::MAX { s as int } else { s + 1 }, Bound::Unbounded => 0 } }
+pub open spec fn hi_of(b: Bound<usize>, len: int) -> int { match b { Bound::Included(e) => if e == usize::MAX { e as int } else { e + 1 }, Bound::Excluded(e) => e as int, Bound::Unbounded => len } }
+/// C16: "get_byte_slice returns None exactly for ranges that are reversed, out of bounds or not on char boundaries"
+pub open spec fn range_ok(b: Seq<u8>, lo: int, hi: int) -> bool { 0 <= lo <= hi <= b.len() && is_cb(b, lo) && is_cb(b, hi) }
+"""
+
+
+def build_slice(u):
+    a = u.item("src/rope.rs", "fn start_bound_to_range_start(")
+    b = u.item("src/rope.rs", "fn end_bound_to_range_end(")
+    from contracts.rope_bounds import p1_ref_patterns
+    p1_ref_patterns(a)
+    p1_ref_patterns(b)
+    a.sig("start_bound_to_range_start", [("start_bound_to_range_start.ensures", "contract",
+          "ensures (match start { Bound::Included(s) => r == Some(*s), Bound::Excluded(s) => r == Some(if *s == usize::MAX { *s } else { (*s + 1) as usize }), Bound::Unbounded => r is None })")], ret="r")
+    b.sig("end_bound_to_range_end", [("end_bound_to_range_end.ensures", "contract",
+          "ensures (match end { Bound::Included(e) => r == Some(if *e == usize::MAX { *e } else { (*e + 1) as usize }), Bound::Excluded(e) => r == Some(*e), Bound::Unbounded => r is None })")], ret="r")
+    u.raw(SLICE_SPEC, ("glue", NAME))
+    u.raw(IMPL, ("glue", NAME))
+    g = u.method("src/rope.rs", IMPL, "get_byte_slice_impl")
+    g2_universal_range(g, "get_byte_slice_impl")
+    c3_search_closure(g, "get_byte_slice_impl", 1, "ensures o == cmp3(p_item.1, start_range)")
+    c3_search_closure(g, "get_byte_slice_impl", 1, "requires p_item.1 + p_item.0.spec_bytes().len() <= usize::MAX\n  ensures o == cmp3((p_item.1 + p_item.0.spec_bytes().len()) as usize, end_range)")
+    c4_simple_closure(g, "get_byte_slice_impl")
+    r2t_try_for_each(g, "get_byte_slice_impl")
+    d3_capacity(g, "get_byte_slice_impl")
+    g.sig("get_byte_slice_impl", [
+        ("Rope::get_byte_slice_impl.requires", "contract", "requires self.wf()"),
+        ("Rope::get_byte_slice_impl.ensures", "contract",
+         "ensures (match r {\n"
+         "    Ok(o) => o.wf() && range_ok(self.bytes(), lo_of(range.0), hi_of(range.1, self.bytes().len() as int))\n"
+         "      && o.bytes() == self.bytes().subrange(lo_of(range.0), hi_of(range.1, self.bytes().len() as int)),\n"
+         "    Err(_) => !range_ok(self.bytes(), lo_of(range.0), hi_of(range.1, self.bytes().len() as int)),\n"
+         "  })"),
+    ], ret="r")
+    c5_len_closure(g, "get_byte_slice_impl")
+    FN = "get_byte_slice_impl"
+    g.body_start(FN, "Rope::get_byte_slice_impl.ghost.b", "ghost", "let ghost b = self.bytes();")
+    g.body_start(FN, "Rope::get_byte_slice_impl.hint.len", "hint", "proof { self.lemma_last(); }")
+    g.at(FN, "before", r"match\s+&self\.repr\s*\{", "Rope::get_byte_slice_impl.hint.resolved", "hint",
+         "proof {\n"
+         "  assert(start_range <= end_range <= b.len());\n"
+         "  assert(start_range == lo_of(range.0) && end_range == hi_of(range.1, b.len() as int));\n"
+         "  if let Repr::Light(s) = self.repr { lemma_str_valid(s); is_char_boundary_start_end_of_seq(s.spec_bytes()); }\n"
+         "}", regex=True, nth=1)
+    g.at(FN, "before", r"return\s+Ok\(Rope::new\(\)\);", "Rope::get_byte_slice_impl.hint.nopiece", "hint",
+         "proof { lemma_no_piece(data@); lemma_glue(b, 0, 0, 0); }", regex=True, nth=1)
+    g.at(FN, "before", r"let\s+start_chunk_index\s*=", "Rope::get_byte_slice_impl.ghost.d", "ghost", "let ghost d = data@;", regex=True, nth=1, optional=False)
+    g.at(FN, "before", r"let\s+start_chunk_index\s*=", "Rope::get_byte_slice_impl.hint.sorted", "hint",
+         "proof { lemma_chunks_sorted(d); lemma_chunk_pos(d, 0); lemma_chunk_pos(d, d.len() - 1); }", regex=True, nth=1)
+    g.at(FN, "before", r"if\s+start_chunk_index\s*==\s*end_chunk_index\s*\{", "Rope::get_byte_slice_impl.ghost.scec", "ghost",
+         "let ghost sc = start_chunk_index as int;\nlet ghost ec = end_chunk_index as int;", regex=True, nth=1, optional=False)
+    g.at(FN, "before", r"if\s+start_chunk_index\s*==\s*end_chunk_index\s*\{", "Rope::get_byte_slice_impl.hint.found", "hint",
+         "proof {\n"
+         "  assert(0 <= sc < d.len() && d[sc].1 <= start_range);\n"
+         "  assert(sc + 1 < d.len() ==> start_range < d[sc + 1].1);\n"
+         "  assert(0 <= ec < d.len() && end_range <= d[ec].1 + clen(d, ec));\n"
+         "  assert(ec > 0 ==> d[ec - 1].1 + clen(d, ec - 1) <= end_range);\n"
+         "  if sc + 1 < d.len() { lemma_chunk_pos(d, sc); }\n"
+         "  if ec > 0 { lemma_chunk_pos(d, ec - 1); }\n"
+         "  assert(start_range <= d[sc].1 + clen(d, sc));\n"
+         "  assert(d[ec].1 <= end_range);\n"
+         "}", regex=True, nth=1)
+    g.at(FN, "before", r"return\s+chunk\s*\.get\(start\.\.end\)", "Rope::get_byte_slice_impl.hint.same", "hint",
+         "proof { lemma_in_piece(d, sc, start_range as int, end_range as int); }", regex=True, nth=1)
+    g.at(FN, "before", r"return\s+Ok\(Rope::new\(\)\);", "Rope::get_byte_slice_impl.hint.empty", "hint",
+         "proof { lemma_chunks_order(d, ec, sc); lemma_empty_range(d, sc); lemma_glue(b, start_range as int, start_range as int, start_range as int); }", regex=True, nth=2)
+    g.at(FN, "before", r"for\s+i\s+in\s+start_chunk_index", "Rope::get_byte_slice_impl.hint.init", "hint",
+         "proof { lemma_chunks_wf_empty(); assert(raw@ =~= Seq::<(&str, usize)>::empty()); lemma_glue(b, start_range as int, start_range as int, start_range as int); rope_ax::axiom_vec_len_bound(data); }",
+         regex=True, nth=1)
+    g.loop(FN, 1, [
+        ("Rope::get_byte_slice_impl.loop1.frame", "contract",
+         "invariant sc == start_chunk_index, ec == end_chunk_index, 0 <= sc < ec < d.len(), d == data@, chunks_wf(d), b == chunks_bytes(d), b.len() <= usize::MAX, b == self.bytes(),\n"
+         "  d[sc].1 <= start_range <= d[sc].1 + clen(d, sc), d[ec].1 <= end_range <= d[ec].1 + clen(d, ec), start_range <= end_range <= b.len(),\n"
+         "  start_range == lo_of(range.0) && end_range == hi_of(range.1, b.len() as int),"),
+        ("Rope::get_byte_slice_impl.loop1.inv", "contract",
+         "invariant chunks_wf(raw@), len == chunks_bytes(raw@).len(),\n"
+         f"  chunks_bytes(raw@) == b.subrange(start_range as int, {POS}),\n"
+         f"  start_range <= {POS} <= b.len(),\n"
+         "  i > sc ==> is_cb(b, start_range as int),\n"
+         "  i > ec ==> is_cb(b, end_range as int),"),
+    ])
+    g.loop_body_start(FN, 1, "Rope::get_byte_slice_impl.ghost.r0", "ghost", "let ghost r0 = raw@;")
+    g.loop_body_start(FN, 1, "Rope::get_byte_slice_impl.hint.step", "hint",
+                      "proof {\n"
+                      "  lemma_chunk_pos(d, i as int);\n"
+                      "  if i < ec { lemma_chunk_pos(d, i + 1); lemma_chunks_order(d, i as int, ec); }\n"
+                      "  if i > sc { lemma_chunks_order(d, sc, i as int); }\n"
+                      "}")
+    g.at(FN, "before", r"if\s+let\s+Some\(chunk\)\s*=\s*chunk\.get\(start\.\.\)", "Rope::get_byte_slice_impl.hint.first", "hint",
+         "proof { lemma_in_piece(d, sc, start_range as int, d[sc].1 + clen(d, sc)); }", regex=True, nth=1)
+    g.at(FN, "before", r"raw\.push\(\(chunk, len\)\);", "Rope::get_byte_slice_impl.hint.first.push", "hint",
+         "proof { lemma_chunks_push(r0, (chunk, len)); lemma_glue(b, start_range as int, start_range as int, d[sc].1 + clen(d, sc)); }", regex=True, nth=1)
+    g.at(FN, "before", r"if\s+let\s+Some\(chunk\)\s*=\s*chunk\.get\(\.\.end\)", "Rope::get_byte_slice_impl.hint.last", "hint",
+         "proof { lemma_in_piece(d, ec, d[ec].1 as int, end_range as int); }", regex=True, nth=1)
+    g.at(FN, "before", r"raw\.push\(\(chunk, len\)\);", "Rope::get_byte_slice_impl.hint.last.push", "hint",
+         "proof { lemma_chunks_push(r0, (chunk, len)); lemma_glue(b, start_range as int, d[ec].1 as int, end_range as int); }", regex=True, nth=2)
+    g.at(FN, "before", r"raw\.push\(\(chunk, len\)\);", "Rope::get_byte_slice_impl.hint.mid.push", "hint",
+         "proof {\n"
+         "  lemma_in_piece(d, i as int, d[i as int].1 as int, d[i as int].1 + clen(d, i as int)); lemma_chunks_push(r0, (*chunk, len));\n"
+         "  lemma_glue(b, start_range as int, d[i as int].1 as int, d[i as int].1 + clen(d, i as int));\n"
+         "  assert(chunk.spec_bytes().subrange(0, clen(d, i as int)) =~= chunk.spec_bytes());\n"
+         "}", regex=True, nth=3)
+    g.body_start(FN, "canary.Rope::get_byte_slice_impl", "canary", "proof { assert(false); }")
+    g.loop_body_start(FN, 1, "canary.Rope::get_byte_slice_impl.loop1", "canary", "proof { assert(false); }")
+    u.raw("}", ("glue", NAME))
+    u.contracted += [("Rope::get_byte_slice_impl", "src/rope.rs")]
+
+
 def build(u):
     u.header.insert(0, "#![feature(allocator_api, clone_to_uninit)]")
     for x in ["use vstd::string::StringSliceAdditionalSpecFns;", "use vstd::slice::SliceIndexSpec;", "use vstd::utf8::*;",
@@ -204,3 +368,8 @@ def build(u):
     build_ctor(u)
     build_get_byte(u)
     u.raw("}", ("glue", NAME))
+    e = u.item("src/error.rs", "pub enum Error {")
+    e.rule("D8", r"\n\s*/// a JSON parsing related failure\n\s*BadJson\(simd_json::Error\),", "")
+    u.raw(GLUE_FROM, ("glue", NAME))
+    f = u.item("src/rope.rs", "impl<'a> From<&'a str> for Rope<'a> {")
+    build_slice(u)
